@@ -135,9 +135,11 @@ Qed.
 (* ---------- invariants of the message writer ---------- *)
 Record ghost := mkG { g_ds : list fd; g_started : bool; g_acc : list bytes }.
 
+Definition healthy (w : mws) : Prop := werrc w = 0 /\ wbudget w = None.
+
 Definition CInv (c : cfg) (pmd : bool) (w : mws) (ds : list fd) (inmsg : bool) (cur : curT)
            (dn : list (N * bool * bytes)) : Prop :=
-  length (hdr w) = 14%nat /\ werrc w = 0 /\ Forall (fun k => length k = 4%nat) (keys w) /\
+  length (hdr w) = 14%nat /\ healthy w /\ Forall (fun k => length k = 4%nat) (keys w) /\
   wire w = enc_all (srv c) ds /\ Forall fd_ok ds /\ Forall (fd_shape pmd) ds /\
   tail_ok (map (abs_fd (srv c)) ds) inmsg cur dn.
 
@@ -172,12 +174,12 @@ Lemma flush_step t z w g dn D (final : bool) extra :
     else MInv c pmd t z w' (mkG (g_ds g ++ [d]) true ((buffered w ++ extra) :: g_acc g)) dn (D ++ extra)
          /\ rbuf w' = [].
 Proof.
-  intros Ht Hz ((Hh & He & Hk & Hw & Hok & Hsh & Htl) & Hp & Hpb & Hft & Hcf & HD & Hacc) Hex Hlen d.
+  intros Ht Hz ((Hh & [He Hbud] & Hk & Hw & Hok & Hsh & Htl) & Hp & Hpb & Hft & Hcf & HD & Hacc) Hex Hlen d.
   assert (Hopk : op_ok (ftype w)).
   { rewrite Hft. destruct (g_started g); [left; reflexivity|]. destruct Ht as [-> | ->]; unfold op_ok; auto. }
   assert (Hnc : is_control (ftype w) = false).
   { rewrite Hft. destruct (g_started g); [reflexivity|]. destruct Ht as [-> | ->]; reflexivity. }
-  destruct (flush_ok c w final extra (Build_good w Hh Hp He Hk) Hopk) as (w' & Hrun & Hw' & Hk' & Hh' & He' & Hnf);
+  destruct (flush_ok c w final extra (Build_good w Hh Hp He Hbud Hk) Hopk) as (w' & Hrun & Hw' & Hk' & Hh' & He' & Hbd' & Hnf);
     [rewrite Hnc; discriminate | exact Hex | exact Hlen |].
   exists w'. split; [exact Hrun|].
   assert (Hncl : (ftype w =? opClose) = false).
@@ -192,7 +194,7 @@ Proof.
   assert (HC : forall i cur dn', tail_ok (map (abs_fd (srv c)) (g_ds g ++ [d])) i cur dn' ->
                 CInv c pmd w' (g_ds g ++ [d]) i cur dn').
   { intros i cur dn' Ht'. unfold CInv.
-    split; [exact Hh'|]. split; [exact He'|].
+    split; [exact Hh'|]. split; [exact (conj He' Hbd')|].
     split; [rewrite Hk'; apply keys_after; exact Hk|].
     split; [rewrite Hw', Hw, enc_all_snoc; reflexivity|].
     split; [apply Forall_app; split; [exact Hok|constructor; [exact Hdok|constructor]]|].
@@ -403,7 +405,7 @@ Lemma control_ok c pmd s ds i cur dn t p :
   exists m', do_control c s t p = (st_mw s m', eOK) /\ CInv c pmd m' (ds ++ [d]) i cur (dn ++ [(t, false, p)]) /\
     rbuf m' = rbuf (mw s) /\ pos m' = pos (mw s) /\ ftype m' = ftype (mw s) /\ cflag m' = cflag (mw s).
 Proof.
-  intros (Hh & He & Hk & Hw & Hok & Hsh & Htl) Ht Hl d.
+  intros (Hh & [He Hbud] & Hk & Hw & Hok & Hsh & Htl) Ht Hl d.
   assert (Hctl : is_control t = true) by (destruct Ht as [-> | ->]; reflexivity).
   assert (Hncl : (t =? opClose) = false) by (destruct Ht as [-> | ->]; reflexivity).
   assert (Hb0 : N.lor (u8 t) finalBit = b0_of true false t) by (destruct Ht as [-> | ->]; reflexivity).
@@ -429,17 +431,17 @@ Proof.
     rewrite N.lor_comm. change maskBit with 128. rewrite lor128 by lia.
     rewrite mask_fast_spec by exact Hkl. reflexivity. }
   destruct (srv c) eqn:Es.
-  - unfold conn_write. rewrite He. cbn [N.eqb negb fold_left is_nil app]. rewrite Hncl.
+  - unfold conn_write. rewrite He. cbn [N.eqb negb]. rewrite Hbud. cbn [fold_left is_nil app]. rewrite Hncl.
     eexists. split; [reflexivity|]. split; [|cbn; auto].
     unfold CInv. rewrite ?Es. cbn [hdr werrc keys set_out].
-    split; [exact Hh|]. split; [exact He|]. split; [exact Hk|].
+    split; [exact Hh|]. split; [exact (conj He Hbud)|]. split; [exact Hk|].
     split; [|split; [apply Forall_snoc; assumption|split; [apply Forall_snoc; assumption|exact Htl']]].
     unfold wire in *. cbn [out set_out rev]. rewrite concat_app, Hw, enc_all_snoc, Henc. cbn [concat]. rewrite app_nil_r. reflexivity.
   - unfold next_key in *. destruct (pop_key (keys (mw s))) as [key ks] eqn:Ek. cbn [fst] in *.
-    unfold conn_write. cbn [werrc set_keys]. rewrite He. cbn [N.eqb negb fold_left is_nil app]. rewrite Hncl.
+    unfold conn_write. cbn [werrc wbudget set_keys]. rewrite He. cbn [N.eqb negb]. rewrite Hbud. cbn [fold_left is_nil app]. rewrite Hncl.
     eexists. split; [reflexivity|]. split; [|cbn; auto].
     unfold CInv. rewrite ?Es. cbn [hdr werrc keys set_out set_keys].
-    split; [exact Hh|]. split; [exact He|].
+    split; [exact Hh|]. split; [exact (conj He Hbud)|].
     split; [pose proof (keys_after false _ Hk) as Hka; cbn in Hka; rewrite Ek in Hka; exact Hka|].
     split; [|split; [apply Forall_snoc; assumption|split; [apply Forall_snoc; assumption|exact Htl']]].
     unfold wire in *. cbn [out set_out set_keys rev]. rewrite concat_app, Hw, enc_all_snoc, Henc. cbn [concat]. rewrite app_nil_r. reflexivity.
